@@ -1595,6 +1595,11 @@ class Engine(object):
             s = s.copy()
             if s.yielded is None:
                 raise EngineError("yield outside a generator")
+            if self.options.get("opaque_yields"):
+                s.ghost = dict(s.ghost)
+                s.ghost["_n_yields"] = s.ghost.get("_n_yields", 0) + 1
+                out.append(("normal", s, None))
+                continue
             if isinstance(s.yielded, ListV):
                 s.yielded = ListV(s.yielded.items + (v,))
             else:
@@ -1953,7 +1958,7 @@ class Engine(object):
         for r in recv:
             if r in st.env and isinstance(st.env[r], (ObjV, ListV, SeqV, MapV, SetV)) and r not in keep:
                 mod_names.add(r)
-        has_yield = any(isinstance(n, (ast.Yield, ast.YieldFrom)) for b in node.body for n in ast.walk(b))
+        has_yield = (not self.options.get("opaque_yields")) and any(isinstance(n, (ast.Yield, ast.YieldFrom)) for b in node.body for n in ast.walk(b))
 
         var_shapes = self.options.get("var_shapes", {})
         st = st.copy()
